@@ -31,7 +31,7 @@ def rd(ctx, N, M=16, B=4, K=1, qN=None, tiers=("quick", "thorough"), labels=None
     return r
 
 
-RD_CONTEXTS_Q = [(0, 3), (1, 2), (2, 2), (3, 2), (11, 2), (12, 2), (16, 2), (17, 2), (24, 2), (52, 2), (57, 2), (60, 2)]
+RD_CONTEXTS_Q = [(0, 3), (1, 2), (2, 2), (3, 2), (4, 6), (5, 5), (11, 2), (12, 2), (16, 2), (17, 2), (24, 2), (25, 1), (26, 1), (52, 2), (57, 2), (60, 2)]
 
 def rdp(harness, ctx, N, picks, labels, covers=(), M=16, tiers=("quick", "thorough"), extra=None):
     r = rd(ctx, N, M=M, labels=labels, covers=covers, harness=harness, tiers=tiers, extra=extra)
@@ -45,14 +45,14 @@ RD_CONTEXTS_T = [(0, 4), (1, 3), (2, 3), (13, 1), (15, 2), (31, 2), (32, 3), (36
 CHECKS = {
     "C02": {
         "level": "model_checking",
-        "runs": [rd(c, n, labels=["C02:", "REF:"], covers=["complete"] if c not in (3, 17, 57, 60) else []) for c, n in RD_CONTEXTS_Q] +
+        "runs": [rd(c, n, labels=["C02:", "REF:"], covers=["complete"] if c not in (3, 17, 25, 26, 57, 60) else []) for c, n in RD_CONTEXTS_Q] +
                 [rd(c, n, labels=["C02:", "REF:"], tiers=["thorough"]) for c, n in RD_CONTEXTS_T],
         "assumptions": ["oracle: reference inflater (harness/common/zz_verif_ref.go.tmpl, strict mode) cross-checked on every path against the real compress/flate executed symbolically on the same bytes (REF:* assertions)",
                         "window harness: stream = concrete context prefix ++ N symbolic bytes ++ suffix; output of the window bounded by M bytes (longer outputs are cut by Assume)"],
     },
     "C03": {
         "level": "model_checking",
-        "runs": [rd(c, n, labels=["C03:"], covers=["truncated"] if c != 60 else []) for c, n in RD_CONTEXTS_Q] +
+        "runs": [rd(c, n, labels=["C03:"], covers=["truncated"] if c not in (25, 26, 60) else []) for c, n in RD_CONTEXTS_Q] +
                 [rd(c, n, labels=["C03:"], tiers=["thorough"]) for c, n in RD_CONTEXTS_T] +
                 [rdp("VerifRdReset", 0, 2, {"olderr": oe, "wp": wp}, ["C13:"], ["ran"]) for (oe, wp) in [(0, 1), (1, 3)]],
         "assumptions": ["oracle: reference inflater strict + permissive; stdlib compress/flate executed symbolically for error kinds",
@@ -61,14 +61,16 @@ CHECKS = {
     "C04": {
         "level": "model_checking",
         "runs": [rdp("VerifRdChunk", c, n, {"chunk": ch, "bufio": b}, ["C04:"], ["ran"])
-                 for (c, n, ch, b) in [(0, 3, 0, 0), (0, 3, 1, 1), (0, 3, 2, 0), (1, 2, 3, 1), (2, 2, 0, 0), (11, 2, 1, 0), (12, 2, 0, 1), (52, 2, 1, 0)]] +
+                 for (c, n, ch, b) in [(0, 3, 0, 0), (0, 3, 1, 1), (0, 3, 2, 0), (1, 2, 3, 1), (2, 2, 0, 0), (11, 2, 1, 0), (12, 2, 0, 1), (52, 2, 1, 0), (82, 1, 2, 0), (82, 1, 3, 1), (4, 6, 3, 0)]] +
+                [rdp("VerifRdChunk", 82, 1, {"chunk": 1, "bufio": b}, ["C04:"], ["ran"], extra={"SPLITBACK": 100}) for b in (0, 2)] +
                 [rdp("VerifRdChunk", 3, 3, {"chunk": 1, "bufio": b}, ["C04:"], ["ran"], tiers=["thorough"], extra={"K": k}) for (k, b) in [(1, 0), (2, 3)]],
         "assumptions": ["relational harness: the same symbolic stream decoded once from one piece and once through a chunking source behind bufio.NewReaderSize(16|17|64|4096), destination sizes 64 vs B2"],
     },
     "C05": {
         "level": "model_checking",
         "runs": [rdp("VerifRdPos", c, n, {"src": k, "ctor": ct}, ["C05:"], ["eof"])
-                 for (c, n) in [(0, 3), (2, 2), (32, 2)] for k in range(8) for ct in (0, 1)],
+                 for (c, n) in [(0, 3), (2, 2), (32, 2)] for k in range(8) for ct in (0, 1)] +
+                [rdp("VerifRdPos", c, n, {"src": k, "ctor": ct}, ["C05:"], ["eof"]) for (c, n) in [(4, 6), (5, 6)] for (k, ct) in [(0, 1), (1, 0), (2, 0), (3, 1)]],
         "assumptions": ["source kinds: bufio 16/64/4096/8192, bytes.Reader, bytes.Buffer, strings.Reader, custom ByteReader; constructors NewReader and NewReader+Reset; 3 symbolic bytes follow the stream"],
     },
     "C11": {
@@ -136,7 +138,9 @@ CHECKS.update({
     "C10": {"level": "model_checking", "runs": wr_seq(["C10:"]) + kernels(["C10:"], ["marker"]),
             "assumptions": ["flush decoding oracle: reference inflater must return all data written so far, then need-more-input exactly at the end of the emitted bytes",
                             "kernel lemmas: flushLastByte / writeEmptyBlock from an arbitrary accumulator (bitLen 0..64 symbolic)"]},
-    "C01": {"level": "model_checking", "runs": kernels(["C01:"], ["dist", "bitbuf", "enc", "lz77"]) + wr_seq(["C01:"]),
+    "C01": {"level": "model_checking", "runs": kernels(["C01:"], ["dist", "bitbuf", "enc", "lz77"]) + wr_seq(["C01:"]) +
+                    [wr("VerifWrGaps", {"setting": st}, {"W": 16, "XLO": lo, "XHI": hi, "LEN": 40, "HUGE": 0, "HUGESZ": 0}, ["C01:"], ["closed"]) for (st, lo, hi) in [(0, 0, 0), (5, 97, 97), (0, 100, 101)]] +
+                    [wr("VerifWrGaps", {"setting": st}, {"W": 16, "XLO": 0, "XHI": 255, "LEN": 40, "HUGE": 0, "HUGESZ": 0}, ["C01:"], ["closed"], tiers=["thorough"]) for st in (0, 5, 6)],
             "assumptions": ["C01 is decided as kernel lemmas on the real code from symbolic pre-states (one lz77 step, token packing, bit packing) plus bounded operation sequences with concrete data decoded by the reference inflater; the composition argument (DESIGN.md C01) is not mechanised",
                             "assembly encoders / LZ77 kernels (acceleration levels 1..4) are outside the encoder; portable Go paths (noasmtest) are what is executed"]},
     "C19": {"level": "model_checking", "runs": kernels(["C19:"], ["dist", "lz77"]) + [r for r in wr_seq(["C19:"]) if r["picks"]["setting"] in (3, 4, 5)],
